@@ -2,6 +2,9 @@
    A schema object is looked up and gets further vocabularies merged in (SchemaLoader with schema=existing:
    the entries are registered into the SAME tag section; the partnered library is built the same way on a
    copy of the cached standard schema).  A HedTag is read and mutated through its public operations.
+   The code in /repo keeps no memo of lookups and no cached forms, so neither does this model: a lookup leaves
+   the table as it is and reading/copying a tag is an identity step.  (That the implementation really has no
+   such stale state is what the history runs of harness/c03_hist.py test.)
    Models only -- no proofs here. *)
 From Coq Require Import List NArith Bool.
 From HV Require Import Base.Str Base.Res Model.Schema Model.Resolve.
